@@ -495,6 +495,63 @@ def run(ctx):
                               {'op': 'gettransactions warm after_txid', 'block_heights': heights, 'after_position': pos,
                                'observed': [g[:8] for g in got] if isinstance(got, list) else got, 'expected': [g[:8] for g in ids[pos + 1:]]})
 
+    # ---- getutxos with a partially filled cache: transactions paying the address were cached by gettransaction / gettransactions, whose
+    # providers do not say whether the outputs are spent; the unspent outputs reported are the provider's, not the cache's guesses -------
+    for rep_i in range(2 if not T else 6):
+        k_a = Key(8000 + rep_i)
+        addr_a = k_a.address(encoding='bech32', script_type='p2wpkh')
+        olds = []
+        for j in range(rng.choice([1, 2])):
+            kj = Key(8100 + 10 * rep_i + j)
+            tj = Transaction(network='bitcoin', witness_type='segwit')
+            tj.add_input(bytes([0x40 + rep_i, j + 1]) * 16, j, keys=[kj], script_type='sig_pubkey', value=90000, witness_type='segwit')
+            tj.add_output(50000 + j, address=addr_a)
+            tj.sign([kj])
+            olds.append(tj.raw_hex())
+        kn = Key(8200 + rep_i)
+        tn = Transaction(network='bitcoin', witness_type='segwit')
+        tn.add_input(bytes([0x60 + rep_i, 9]) * 16, 0, keys=[kn], script_type='sig_pubkey', value=9000, witness_type='segwit')
+        tn.add_output(7000, address=addr_a)
+        tn.sign([kn])
+        how_cached = rng.choice(['gettransaction', 'gettransactions'])
+
+        def old_tx(rawj, hgt):
+            tt = Transaction.parse_hex(rawj)
+            tt.block_height, tt.confirmations, tt.status = hgt, 800000 - hgt, 'confirmed'
+            tt.date = datetime(2021, 1, 1, tzinfo=timezone.utc)
+            for inp in tt.inputs:
+                inp.value = 90000
+            for o_ in tt.outputs:
+                o_.spent = None            # this provider does not know (as bitcoind, bcoin, chainso, cryptoid, mempool.space clients)
+            tt.update_totals()
+            return tt
+
+        provider_utxos = [{'address': addr_a, 'txid': tn.txid, 'confirmations': 10, 'output_n': 0, 'input_n': 0, 'block_height': 799990, 'fee': None,
+                           'size': 0, 'value': 7000, 'script': '', 'date': None}]
+        srv = new_service(2)
+        for i in range(2):
+            script[i] = {'blockcount': ('ok', 800000), 'getutxos': ('ok', [dict(u) for u in provider_utxos]),
+                         'gettransaction': ('okfn', lambda txid, olds=olds: next(old_tx(r_, 700000 + n_) for n_, r_ in enumerate(olds) if Transaction.parse_hex(r_).txid == txid)),
+                         'gettransactions': ('ok', lambda _i, olds=olds: [old_tx(r_, 700000 + n_) for n_, r_ in enumerate(olds)])}
+        ctx.evals += 1
+        ctx.count('getutxos-with-partially-filled-cache:' + how_cached)
+        try:
+            if how_cached == 'gettransaction':
+                for r_ in olds:
+                    srv.gettransaction(Transaction.parse_hex(r_).txid)
+            else:
+                srv.gettransactions(addr_a)
+            got = sorted((u['txid'], u['output_n'], u['value']) for u in srv.getutxos(addr_a))
+        except ServiceError:
+            got = 'error'
+        except Exception as e:
+            got = 'raise:%s' % type(e).__name__
+        want = sorted((u['txid'], u['output_n'], u['value']) for u in provider_utxos)
+        if got != 'error' and got != want:
+            ctx.violation('getutxos reports outputs that no provider reported (cached outputs whose spent status is unknown)',
+                          {'op': 'getutxos partial cache', 'cached_by': how_cached, 'observed': [(g[0][:8], g[1], g[2]) for g in got] if isinstance(got, list) else got,
+                           'expected': [(g[0][:8], g[1], g[2]) for g in want]})
+
     # ---- a failed query must not poison later ones: all providers down (error limit reached), then healthy again ---------------
     for qname, (call, answer, who) in queries.items():
         for maxe in (1, 2, 4):
